@@ -56,6 +56,8 @@ theorem foldl_pres {α β : Type} (π : Stack → β) (f : Stack → α → Stac
 @[simp] theorem base_with_subLog (s : Stack) (x : List (Addr × Nat × List Eventgroup)) : base { s with subLog := x } = base s := rfl
 @[simp] theorem base_with_findLog (s : Stack) (x : List (Nat × Nat)) : base { s with findLog := x } = base s := rfl
 @[simp] theorem base_with_findMarks (s : Stack) (x : List (Nat × Nat)) : base { s with findMarks := x } = base s := rfl
+@[simp] theorem base_with_ansLog (s : Stack) (x : List (Nat × Addr × Nat × Nat)) : base { s with ansLog := x } = base s := rfl
+@[simp] theorem base_logAnswer (s : Stack) (i : Nat) (a : Addr) (d : Nat) : base (s.logAnswer i a d) = base s := rfl
 @[simp] theorem base_markFind (s : Stack) (n : Nat) : base (s.markFind n) = base s := rfl
 @[simp] theorem base_with_offLog (s : Stack) (x : List (Nat × OEv × Nat)) : base { s with offLog := x } = base s := rfl
 @[simp] theorem base_logOffer (s : Stack) (i : Nat) (e : OEv) : base (s.logOffer i e) = base s := rfl
